@@ -152,6 +152,9 @@ func (ft *ftrans) stateVars(body ast.Node, e env) []*ast.Object {
 		if cal, target := ft.updateTarget(ce, e); cal != nil && target != nil {
 			add(target.Obj)
 		}
+		if id := ft.mutReceiver(ce, e); id != nil {
+			add(id.Obj)
+		}
 		return true
 	})
 	// deterministic: source order of the first assignment is what assignedVars gives; updating calls come after
@@ -327,7 +330,20 @@ func (ft *ftrans) newLoop(list, vname, vt string, body []ast.Stmt, bodyNode ast.
 	ft.loops = append(ft.loops, lc)
 	savedSwitch, savedJoin := ft.switchDepth, ft.joinDepth
 	ft.switchDepth, ft.joinDepth = 0, 0
+	savedBare := ft.bareReturn
+	if closure {
+		ft.bareReturn = func(env) node { return nLeaf{"Gen.Rt.Step.next " + pat} }
+	} else if savedBare != nil {
+		ft.bareReturn = func(e3 env) node {
+			l, isLeaf := savedBare(e3).(nLeaf)
+			if !isLeaf {
+				failf("a bare return inside a loop inside a closure is outside the subset")
+			}
+			return nLeaf{"Gen.Rt.Step.ret " + atom(l.s)}
+		}
+	}
 	bn := ft.block(body, e2, func(env) node { return nLeaf{"Gen.Rt.Step.next " + pat} })
+	ft.bareReturn = savedBare
 	ft.loops = ft.loops[:len(ft.loops)-1]
 	ft.switchDepth, ft.joinDepth = savedSwitch, savedJoin
 	if withIndex != nil {
@@ -744,4 +760,48 @@ func (ft *ftrans) mulDivRem(c *ast.BinaryExpr, e env, pre *[]prelude) val {
 	}
 	failf("operator %s is outside the subset", c.Op)
 	return val{}
+}
+
+// mutReceiver: for a statement-like call `x.M(…)` of a translated method without results that updates its receiver,
+// the receiver variable x
+func (ft *ftrans) mutReceiver(ce *ast.CallExpr, e env) *ast.Ident {
+	sel, ok := ce.Fun.(*ast.SelectorExpr)
+	if !ok {
+		return nil
+	}
+	id, ok := sel.X.(*ast.Ident)
+	if !ok || id.Obj == nil {
+		return nil
+	}
+	if b, ok := e[id.Obj]; !ok || b.kind != bVar {
+		return nil
+	}
+	g := ft.calledFn(ce, e)
+	if g == nil || g.cfg.Extract != nil || len(g.results) != 0 || g.fallible || len(g.mutated) != 1 || g.mutated[0] != 0 || g.decl == nil || g.decl.Recv == nil {
+		return nil
+	}
+	return id
+}
+
+// mutCallStmt: `x.M(args)` for such a method: x is rebound to the value the translated method returns
+func (ft *ftrans) mutCallStmt(ce *ast.CallExpr, e env, k cont) node {
+	id := ft.mutReceiver(ce, e)
+	if id == nil {
+		return nil
+	}
+	g := ft.calledFn(ce, e)
+	if g == ft.f {
+		failf("a statement call of the function itself is outside the subset")
+	}
+	if ft.inLoop || ft.inFold {
+		failf("a receiver-updating call inside a loop of this form is outside the subset")
+	}
+	b := e[id.Obj]
+	var pre []prelude
+	recv := ft.expr(id, e, &pre)
+	v := ft.callFn(g, &recv, ce.Args, e, &pre)
+	if v.t != "mutated" {
+		failf("internal: receiver-updating call of %s", g.cfg.Go)
+	}
+	return ft.wrap(pre, nLet{name: b.lean, typ: ft.t.leanType(b.typ), val: v.s, body: k(e)})
 }
